@@ -65,7 +65,7 @@ s = src_replace("pkg.a", "def _sum(values, scale, offset):\n    acc = offset\n  
 s = src_replace("pkg.a", "return _sum(self.cache.values(), scale, offset)", "return _weighted(self.cache.values(), scale, offset)", s)
 CASES.append(("rename", s, "pkg.a:_sum", True))
 s2 = src_replace("pkg.a", "total += v * scale", "total += v + scale", s)
-CASES.append(("rename, body edited", s2, "pkg.a:_sum", "successor"))
+CASES.append(("rename, body edited", s2, "pkg.a:_sum", "successor:v + scale"))
 
 # 2. move to the other module
 s = src_replace("pkg.a", "def _sum(values, scale, offset):\n    acc = offset\n    for v in values:\n        acc += v * scale\n    return acc\n", "")
@@ -79,7 +79,7 @@ s = src_replace("pkg.a", "def _sum(values", "def _check_size(items, limit):\n   
 s = src_replace("pkg.a", "self._check()", "_check_size(self.items, self.limit)", s)
 CASES.append(("method->function", s, "pkg.a:Box._check", True))
 s2 = src_replace("pkg.a", "if len(items) > limit:", "if len(items) >= limit:", s)
-CASES.append(("method->function, comparison edited", s2, "pkg.a:Box._check", False))
+CASES.append(("method->function, comparison edited", s2, "pkg.a:Box._check", "successor:>= self.limit"))
 
 # 4. signature: re-ordered, keyword-only
 s = src_replace("pkg.a", "def _sum(values, scale, offset):", "def _sum(values, *, offset, scale):")
@@ -156,16 +156,16 @@ def main():
         out, log = inline.inline_package({m: (t, False) for m, t in parse_pkg(srcs).items()}, known)
         have = {d.qual for m, t in out.items() for d in enumerate_defs(m, t)}
         got = execute(out, INPUTS)
-        if should == "successor":
+        if isinstance(should, str) and should.startswith("successor"):
             # the edited function is analysed under the reference name - with its own (edited) body, never with the reference text
             node = [d.node for m, t in out.items() for d in enumerate_defs(m, t) if d.qual == qual]
-            ok = bool(node) and ast.unparse(node[0]) != sources[qual]["src"] and "v + scale" in ast.unparse(node[0]) and got == want
+            ok = bool(node) and ast.unparse(node[0]) != sources[qual]["src"] and should.split(":", 1)[1] in ast.unparse(node[0]) and got == want
         else:
             ok = (qual in have) == should and got == want
         extra = sorted(q for q in have if q not in known)
         if should and extra:
             ok = False
-        print(f"{'ok  ' if ok else 'FAIL'} {name}: reference function {'restored' if qual in have else 'not restored'} (expected: {'restored' if should is True else ('its edited body under the reference name' if should == 'successor' else 'not restored')}); "
+        print(f"{'ok  ' if ok else 'FAIL'} {name}: reference function {'restored' if qual in have else 'not restored'} (expected: {'restored' if should is True else ('its edited body under the reference name' if isinstance(should, str) else 'not restored')}); "
               f"behaviour {'same' if got == want else 'DIFFERS'}; functions unknown to the reference afterwards: {extra}")
         if not ok:
             bad += 1
